@@ -535,6 +535,9 @@ func restScenC19(d *restDriver, c *ctx) {
 				if want == "n" && kind == "n" {
 					continue
 				}
+				if f == "timestamp" && kind == "neg" {
+					continue // the timestamp is a signed field: -1 is well typed (and means "use the clock")
+				}
 				if c.quick() && c.rng.Intn(6) != 0 {
 					continue
 				}
